@@ -233,7 +233,9 @@ fn encode<'t, T>(
                         // of the separator pattern yields an empty character class (meaning that the
                         // glob expression matches only separator characters on the target platform).
                         if Regex::new(&pattern).is_ok() {
-                            pattern.into()
+                            // Character classes are always case-sensitive, regardless of any
+                            // case-insensitivity flag left in scope by a preceding literal.
+                            format!("(?-i:{})", pattern).into()
                         }
                         else {
                             // If compilation fails, then use `NEVER_EXPRESSION`, which matches
